@@ -195,6 +195,32 @@ def run(F, rep):
         chars = {x.get('v') for x in e.walk() if x.get('k') in ('Char', 'Int')}
         rep.check({'&amp;', '&lt;', '&quot;'} <= lits, 'C02.E1', 'escaper|entities', e.where(), 'the escaper does not produce &amp; &lt; &quot;', 'produces %s' % sorted(l for l in lits if l and l.startswith('&')))
 
+    # ------------------------------------------------------------------ E2: sign-safe character tests
+    rep.rule('C02.E2', 'text is classified byte by byte only through sign-safe tests: no ordering comparison (< <= > >=) on a plain `char` (non-ASCII UTF-8 bytes are negative there) in the printer, the parser, the XML wrappers and the string utilities')
+
+    def char_order_cmps(f):
+        out = []
+        for b in f.walk():
+            if b.get('k') == 'Bin' and b.get('op') in ('<', '<=', '>', '>=') and len(b.get('c', [])) == 2:
+                for x in b['c']:
+                    if x.get('k') in ('Ref', 'Member') and (x.get('t') or '') in ('char', 'const char'):
+                        out.append(b)
+                        break
+                    if x.get('k') == 'Call' and x.get('opc') in ('[]', '*') and (x.get('rt') or '').replace('&', '').strip() in ('char', 'const char', 'const std::basic_string<char>::value_type', 'std::basic_string<char>::value_type'):
+                        out.append(b)
+                        break
+        return out
+    import facts as _facts
+    fx = _facts.fixture_funcs('charcmp')
+    if len(char_order_cmps(fx['fixtureEscapeBad'])) != 1 or char_order_cmps(fx['fixtureEscapeGood']):
+        raise AnalysisBroken('C02.E2: the detector does not separate the two fixture functions (sa/fixtures/src/charcmp.cpp)')
+    scope = [f for f in F.funcs.values() if f.file.split('/')[-1] in ('printer.cpp', 'parser.cpp', 'utilities.cpp', 'xmldoc.cpp', 'xmlnode.cpp', 'xmlattribute.cpp', 'xmlutils.cpp', 'commonutils.cpp')]
+    bad = [(f, b) for f in scope for b in char_order_cmps(f)]
+    for f, b in bad:
+        rep.fail('C02.E2', '%s|%s' % (f.short, render(b)[:40]), f.where(b), '%s orders a plain char: `%s` is also true/false for every non-ASCII byte, so names and ids with non-ASCII characters are mangled' % (f.short, render(b)[:50]))
+    if not bad:
+        rep.ok('C02.E2', 'scan', None, 'no ordering comparison on plain char in %d functions (fixture: 1 of 2 functions flagged, as expected)' % len(scope))
+
     # ------------------------------------------------------------------ G
     rep.rule('C02.G1', 'the printer (printer.cpp and the utilities it calls) reads every serialisable data member of Model, Component, Units, Variable, Reset, ImportSource and ImportedEntity through some entity method')
     pf = [f for f in F.funcs.values() if f.file.endswith('/printer.cpp')]
@@ -296,22 +322,30 @@ def run(F, rep):
     if n_m < 28:
         raise AnalysisBroken('C02.M1: only %d attributes compared (33 confirmed)' % n_m)
 
-    rep.rule('C02.M2', 'the attributes of <unit> are handed to Units::addUnit by the parser and taken from Units::unitAttributes by the printer in the same positional order (reference, prefix, exponent, multiplier, id)')
+    rep.rule('C02.M2', 'the attributes of <unit> reach the same named parameters on both sides: what the printer takes from the `exponent` out-parameter of Units::unitAttributes is written as exponent=, '
+                       'and the parser hands the value of exponent= to the `exponent` parameter of Units::addUnit (likewise reference/units, prefix, multiplier, id)')
     pu = F.fn1('Printer::PrinterImpl::printUnits')
     ua = [c for c in pu.walk() if c.get('k') == 'Call' and c.get('fn') == 'unitAttributes']
     lu = F.fn1('Parser::ParserImpl::loadUnit')
     au = [c for c in lu.walk() if c.get('k') == 'Call' and c.get('fn') == 'addUnit']
     if len(ua) != 1 or len(au) != 1:
         raise AnalysisBroken('printUnits/loadUnit: unitAttributes/addUnit call vanished')
-    wpos = {}
+
+    def pnames(call):
+        g = F.funcs.get(call.get('ck'))
+        if g is None:
+            raise AnalysisBroken('callee of %s not resolved' % render(call)[:40])
+        return [p['n'] for p in g.params]
+    ATTR_OF_PARAM = {'reference': 'units', 'prefix': 'prefix', 'exponent': 'exponent', 'multiplier': 'multiplier', 'id': 'id'}
+    wmap = {}
     for p in pv:
         if p['element'] == 'unit' and p['value'] is not None:
             for r in walk(p['value']):
                 if r.get('k') == 'Ref' and r.get('dk') == 'local':
-                    for i, a in enumerate(ua[0]['c'][2:]):
+                    for i, a in enumerate(ua[0]['c'][1:]):
                         if a.get('k') == 'Ref' and a.get('d') == r['d']:
-                            wpos[p['attr']] = i
-    rpos = {}
+                            wmap[p['attr']] = pnames(ua[0])[i]
+    rmap = {}
     for a in pa:
         if a['func'] is lu and not a['legacy']:
             p_ = lu.parent(a['site'])
@@ -323,12 +357,34 @@ def run(F, rep):
             for d in branch_locals(then):
                 for i, arg in enumerate(au[0]['c'][1:]):
                     if any(r.get('k') == 'Ref' and r.get('d') == d for r in walk(arg)):
-                        rpos.setdefault(a['attr'], i)
-    for attr in sorted(set(wpos) | set(rpos)):
-        rep.check(wpos.get(attr) == rpos.get(attr), 'C02.M2', 'unit|' + attr, pu.where(ua[0]),
-                  'attribute %s of <unit> is argument %s of unitAttributes in the printer but argument %s of addUnit in the parser' % (attr, wpos.get(attr), rpos.get(attr)), 'position %s on both sides' % wpos.get(attr))
-    if len(set(wpos) & set(rpos)) < 5:
-        raise AnalysisBroken('C02.M2: unit attributes matched on both sides: %s / %s' % (sorted(wpos), sorted(rpos)))
+                        rmap.setdefault(a['attr'], pnames(au[0])[i])
+    for attr in sorted(set(wmap) | set(rmap)):
+        okk = ATTR_OF_PARAM.get(wmap.get(attr)) == attr and ATTR_OF_PARAM.get(rmap.get(attr)) == attr
+        rep.check(okk, 'C02.M2', 'unit|' + attr, pu.where(ua[0]),
+                  'attribute %s of <unit> is taken from parameter `%s` of unitAttributes by the printer and handed to parameter `%s` of addUnit by the parser' % (attr, wmap.get(attr), rmap.get(attr)), 'parameter `%s` on both sides' % wmap.get(attr))
+    if len(set(wmap) | set(rmap)) < 5:
+        raise AnalysisBroken('C02.M2: unit attributes matched: %s / %s' % (sorted(wmap), sorted(rmap)))
+
+    rep.rule('C02.I1', 'inside a loop over the children of an entity by index (i < xCount()), what is printed for child i is fetched with that index: an accessor that looks the child up by name/reference returns the first match, not child i')
+    n_i = 0
+    for f in xmlvocab.printer_functions(F):
+        for loop in f.walk():
+            if loop.get('k') != 'For':
+                continue
+            cond = role(loop, 'cond')
+            m = re.match(r'(\w+) < (.+)->(\w+)Count\(\)$', render(cond) or '')
+            if not m:
+                continue
+            ivar, owner, kind = m.group(1), m.group(2), m.group(3)
+            for c in walk(role(loop, 'body')):
+                if c.get('k') == 'Call' and c.get('mc') and not c.get('opc') and render(receiver(c)) == owner and c.get('fn', '').lower().startswith(kind.lower()) and c.get('fn') != kind + 'Count':
+                    args = c['c'][1:]
+                    n_i += 1
+                    uses_index = any(r.get('k') == 'Ref' and r.get('n') == ivar for a in args for r in walk(a))
+                    rep.check(uses_index, 'C02.I1', '%s|%s' % (f.name, render(c)[:50]), f.where(c),
+                              '%s: inside `for (%s ...)` the child is read by `%s`, which does not use the loop index: for two children with the same reference the first one is printed twice' % (f.short, render(cond), render(c)[:60]), 'indexed by ' + ivar)
+    if n_i < 8:
+        raise AnalysisBroken('C02.I1: %d indexed child accesses found in printer.cpp (10+ confirmed)' % n_i)
 
     # ------------------------------------------------------------------ O
     rep.rule('C02.O1', 'a printed connection keeps pairs together: the component pair is (owner of variable 1, owner of variable 2) in the order of the variable pair, component_1/variable_1 are printed from the first and component_2/variable_2 from the second member; '
